@@ -57,14 +57,25 @@ func VerifC13Snapshot() {
 		if bw == nil {
 			return
 		}
-		addN(bw, 1, 'b')
-		addN(&a.BaseStore, t-1, 'a')
+		// the two writers' concurrent chains have any lengths nb + na = T (so the
+		// heads have equal or different clock times, whichever writer sorts first);
+		// optionally a later local write merges the two heads
+		nb := 1
+		if t > 2 {
+			nb = 1 + vstub.NdChoice("remote-len", t-1)
+		}
+		addN(bw, nb, 'b')
+		addN(&a.BaseStore, t-nb, 'a')
 		if err := a.Sync(ctx, bw.OpLog().Heads().Slice()); err != nil {
 			vstub.Fail("C13 Sync failed")
 			return
 		}
 		vstub.WaitIdle()
 		vstub.Cover("replicated")
+		if vstub.NdChoice("merge-write", 2) == 1 {
+			addN(&a.BaseStore, 1, 'm')
+			vstub.Cover("merged")
+		}
 	}
 	wantHashes := hashesOf(&a.BaseStore)
 	var wantHeads []string
